@@ -4,6 +4,7 @@
 package vsync
 
 import (
+	"fmt"
 	"reflect"
 	"unsafe"
 
@@ -452,3 +453,14 @@ func SelectPoint(chans ...interface{}) {
 //
 //go:norace
 func Yield() { vsched.Yield() }
+
+// ExitError is the panic value raised instead of ending the process when instrumented code calls os.Exit
+// (the framework's Fatalf): the harness observes the exit as a panic of the calling thread.
+type ExitError struct{ Code int }
+
+func (e ExitError) Error() string { return fmt.Sprintf("os.Exit(%d)", e.Code) }
+
+// Exit replaces os.Exit in instrumented packages.
+//
+//go:norace
+func Exit(code int) { panic(ExitError{code}) }
